@@ -400,8 +400,9 @@ func lexGround(l *lexer) stateFn {
 			return lexGround
 		case '*':
 			// Start of a /* comment
+			l.next() // The * of the opener cannot also start the closing */
 			if !l.skipTo("*/") {
-				l.ErrorfAt(l.line, l.col-1, `missing closing */`)
+				l.ErrorfAt(l.line, l.col-2, `missing closing */`)
 				return nil
 			}
 			// Now actually skip the */
